@@ -40,7 +40,7 @@ def run_l1(prop, tier, chk, model, bres):
             chk.count(f'segments:{branch}:{"odd" if L % 2 else "even"}')
             if mnorm is not None and mnorm != irep:
                 chk.disagree('segments', {'cap': cap, 'L': L, 'eflr': e, 'type': ty, 'body': hexs(body)[:200]},
-                             irep[:300], mrep[:300])
+                             irep, mrep)
             # oracle (writability, C15): a capacity the validity check lets through must be usable for any length
             if prop == 'C15' and 12 <= cap and cap % 2 == 0 and st != 'ok':
                 chk.fail('segments:raises-on-size', {'capacity': cap, 'max_record_length': cap + 8,
@@ -82,7 +82,7 @@ def run_l1(prop, tier, chk, model, bres):
             case = {'max_record_length': vrl, 'sul_sequence_number': seq, 'set_identifier': setid,
                     'records': [[e, t, hexs(b)[:400]] for e, t, b in recs], 'body_sizes': sizes}
             if mnorm is not None and mnorm != irep:
-                chk.disagree('file', case, irep[:300], mrep[:300])
+                chk.disagree('file', case, irep, mrep)
             label_ok = len(str(seq)) <= 4 and len(setid) <= 60 and setid.isascii()
             vrl_ok = 20 <= vrl <= 16384 and vrl % 2 == 0
             if st == 'ok':
